@@ -108,15 +108,29 @@ def imported_names(recs):
         if r.status != "ok":
             continue
         text = maclib.text_of_tokens(r.tokens).replace("~", "")
+        text = text.replace("open-b", "{").replace("close-b", "}")
         for m in re.finditer(r"\buse\b ([^;]+);", text):
-            path = m.group(1).replace(" ", "")
-            if path.endswith("::*"):
-                globs.add(path[:-3])
-            elif "{" in path:
-                for n in re.findall(r"(\w+)\s*(?:,|})", path):
-                    names.add(n)
-            else:
-                names.add(path.split("::")[-1])
+            # the leaves of the use tree: `a::b::{C, D as E, f::G, H as _}` brings in C, E, G (an `as _` import brings in no name,
+            # only the trait's methods - those are the business of imported_trait_methods)
+            tree = re.sub(r"\s+", " ", m.group(1)).strip()
+            for leaf in re.split(r"[{},]", tree):
+                leaf = leaf.strip()
+                if not leaf:
+                    continue
+                if " as " in leaf:
+                    alias = leaf.split(" as ")[-1].strip()
+                    if alias != "_":
+                        names.add(alias)
+                    continue
+                leaf = leaf.replace(" ", "")
+                if leaf.endswith("::*") or leaf == "*":
+                    globs.add((tree.split("{")[0].replace(" ", "") + leaf).replace("::*", "").rstrip(":"))
+                    continue
+                if leaf.endswith("::"):
+                    continue          # the prefix in front of a brace group
+                last = leaf.split("::")[-1]
+                if last and last != "self":
+                    names.add(last)
     for g in globs:
         segs = [x for x in g.split("::") if x]
         if segs and segs[0] == "assert_struct":
